@@ -75,6 +75,23 @@ static void op_openreset(FILE *out, const char *id, char **a, int n) {
     zck_free(&zck); close(fd);
 }
 
+/* OPENLATE <file> <len>: the expected header length is announced AFTER zck_read_lead and before zck_read_header (a caller that
+ * learns the length late).  The lead has been checked already, so the option changes nothing: the result is that of an open without
+ * a length pin.  -> OK | ERR <stage> */
+static void op_openlate(FILE *out, const char *id, char **a, int n) {
+    int fd = open(a[0], O_RDONLY);
+    if(fd < 0) { fprintf(out, "%s HARNESS-ERR nofile\n", id); return; }
+    zckCtx *zck = zck_create();
+    zck_init_adv_read(zck, fd);
+    if(!zck_read_lead(zck)) { fprintf(out, "%s ERR lead\n", id); return; }
+    long long v = strcmp(a[1], "hl") == 0 ? (long long)zck_get_header_length(zck) : atoll(a[1]);
+    if(!zck_set_ioption(zck, ZCK_VAL_HEADER_LENGTH, v)) { fprintf(out, "%s ERR opt_len\n", id); return; }
+    if(!zck_read_header(zck)) { fprintf(out, "%s ERR header\n", id); return; }
+    fprintf(out, "%s OK\n", id);
+    zck_free(&zck);
+    close(fd);
+}
+
 /* OPENM <file> <pos> <byte hex>: zck_init_read on the file with one byte substituted (the mutated
  * copy lives in a memfd).  -> OK | ERR */
 static void op_openm(FILE *out, const char *id, char **a, int n) {
